@@ -40,9 +40,11 @@ namespace igris
             m_mutex.lock();
             bWasSignalled = m_bFlag;
             m_bFlag = true;
-            m_mutex.unlock();
-            IGRIS_VERIF_POINT(IGRIS_VERIF_EVENT_GAP, this, 0);
+            // Notify before the mutex is released: once it is released a
+            // waiter may return from wait() and destroy this event.
             m_condition.notify_all();
+            IGRIS_VERIF_POINT(IGRIS_VERIF_EVENT_GAP, this, 0);
+            m_mutex.unlock();
             return bWasSignalled == false;
         }
 
